@@ -101,7 +101,9 @@ class Fed:
         if self.tr.closed:
             return False
         try:
-            self.h.data_received(fstub.as_kind(chunk, kind))
+            obj_, recycle_ = fstub.as_kind_recycled(chunk, kind)
+            self.h.data_received(obj_)
+            recycle_()  # caller reuses its receive buffer
         except Exception as e:  # noqa: BLE001 – asyncio: _fatal_error -> force close -> connection_lost(exc)
             self.raised.append(e)
             self.tr.closed = True
